@@ -7,48 +7,48 @@ hook_commits = subprocess.run(["git","-C","/repo","log","--format=%H","--grep=^v
 
 claimed = {
  "C10": dict(engine="execsim", cat="fault_enumeration",
-   text="Per generated template world the check enumerates every dynamic fault point (each probe-function call panicking with an error, each writer Write failing) of a failing execution, followed by every template of the world plus a state-probe template, with the simulated Runtime pool handing the follow-up exactly the Runtime the failed execution released; every call must equal its alone-run (fresh Set, fresh pool, same per-call fault plan) byte for byte and error for error, and the structural hash of every parsed Template must not change. Worlds, data and histories are sampled from the seed; the fault-point x follow-up dimension is exhausted per sampled world (capped at 24/60 points).",
+   text="Per generated template world the check enumerates every dynamic fault point (each probe-function call panicking with an error, each writer Write failing) of a failing execution, followed by every template of the world plus a state-probe template, with the simulated Runtime pool handing the follow-up exactly the Runtime the failed execution released; every call must equal its alone-run (fresh Set, fresh pool, same per-call fault plan) byte for byte and error for error, and the structural hash of every parsed Template must not change. Worlds, data and histories are sampled from the seed; the fault-point x follow-up dimension is exhausted per sampled world (capped at 24/60 points). As built additionally: histories also run Execute with nil variables (everything as Set globals), on a second Set holding other texts under the same names, after 300 further struct types were rendered and with one failure repeated 20-90 times; the caller's VarMap must come back unchanged, parsed templates keep their structural hash, same-shape struct types resolve alike; after the sweep 160 (thorough 1600) runs are replayed alone in fresh processes and their event logs compared (order independence).",
    note="Trusted: the verif hooks hand Execute the Runtime the simulator chose (sync.Pool's real behaviour is a subset); the generator only reaches the syntax it emits (blocks, yield/content, range, if-let, include, exec, try, extends/import); residue is judged through observable behaviour only.",
    tech="deterministic simulation: seeded history generation, simulated object pool (adversarial reuse), injected function/writer faults at every dynamic point, alone-run differential oracle, tape shrinking + replay",
    ref="DESIGN.md §6 C10"),
  "C13": dict(engine="execsim", cat="fault_enumeration",
-   text="Per generated world one try statement is instrumented (bracketed by mark() calls, followed by state probes printing '.', isset of every variable of the world and of the catch variable, yield content and Execute variables) and placed under tape-chosen enclosing constructs (range with rebound context, if-let, block/yield with content, include with context, imported/extended files). Every dynamic probe call inside its body is made the failing one; the output must be exactly fault-free-prefix + catch rendering (once, with the injected error, per catch form) + fault-free-suffix, the fault-free segment must equal what the twin program without the try wrapper renders, and faults absorbed by an inner try must render what the body renders outside try under the same fault.",
+   text="Per generated world one try statement is instrumented (bracketed by mark() calls, followed by state probes printing '.', isset of every variable of the world and of the catch variable, yield content and Execute variables) and placed under tape-chosen enclosing constructs (range with rebound context, if-let, block/yield with content, include with context, imported/extended files). Every dynamic probe call inside its body is made the failing one; the output must be exactly fault-free-prefix + catch rendering (once, with the injected error, per catch form) + fault-free-suffix, the fault-free segment must equal what the twin program without the try wrapper renders, and faults absorbed by an inner try must render what the body renders outside try under the same fault. As built additionally: four catch forms (incl. a return statement in the catch body and an empty catch body), wrapping errors, string panics and runtime errors as fault kinds; one run in ten is a re-entrant program judged by a reference model (a block yielding itself / a template including itself with one try statement re-entered from body and catch body, up to 1100 repetitions, the destination's k-th Write failing for every k; a layout whose try protects a block overridden by an extending template).",
    note="Trusted: writer offsets recorded by mark() identify the statement's extent; instances dynamically nested inside another try/exec are skipped by the spliced-output oracle; bodies do not assign outer variables (roll-back of those is not demanded by the statement).",
    tech="deterministic simulation: seeded program generation, fault injection at every dynamic call inside the try body, spliced-output and twin-program oracles, tape shrinking + replay",
    ref="DESIGN.md §6 C13"),
  "C12": dict(engine="execsim", cat="fault_enumeration",
-   text="A failure site is a fault. Per generated world, every reached site placeholder (in the executed template, included files, imported blocks, extended parents, exec targets; under range/if/block/yield-content/include; outside try) is replaced, one at a time, by a failing action of each of ~68 self-detected failure classes (unknown identifier/field/method/block/template; index, slice bound, operand, call target, argument, range subject of wrong kind/count/range; yield argument without value; '_' without piped value; SafeWriter not last; built-in argument checks), and for the function-reports-an-error class every dynamic call of the site panics with an error. Judged per planted failure: Execute returns an error and does not panic; the message names the site's file and 1-based line (any position in the message may match, format-agnostic); the writer holds exactly the bytes the fault-free twin had written before the site (also at the fault instant: streaming); planting at a site that is never reached changes nothing. Sites and classes are capped per run in the quick tier (6 sites x 24 rotated classes) and widened in the thorough tier (12 x all).",
-   note="Trusted: the fault-free twin run (site = mark()) defines 'everything rendered before'; failing actions are single-line. 11 class-specific known findings (position-less errors from jet's own built-in functions and numeric conversion helpers) are listed in known_findings.json and reported as KNOWN-FINDING.",
+   text="A failure site is a fault. Per generated world, every reached site placeholder (in the executed template, included files, imported blocks, extended parents, exec targets; under range/if/block/yield-content/include; outside try) is replaced, one at a time, by a failing action of each of ~68 self-detected failure classes (unknown identifier/field/method/block/template; index, slice bound, operand, call target, argument, range subject of wrong kind/count/range; yield argument without value; '_' without piped value; SafeWriter not last; built-in argument checks), and for the function-reports-an-error class every dynamic call of the site panics with an error. Judged per planted failure: Execute returns an error and does not panic; the message names the site's file and 1-based line (any position in the message may match, format-agnostic); the writer holds exactly the bytes the fault-free twin had written before the site (also at the fault instant: streaming); planting at a site that is never reached changes nothing. Sites and classes are capped per run in the quick tier (6 sites x 24 rotated classes) and widened in the thorough tier (12 x all). As built additionally: about 110 failure classes; whether a site is dynamically inside a try body or exec() is read off marks every try statement and exec'd template carries (not off the Runtime under test).",
+   note="Trusted: the fault-free twin run (site = mark()) defines 'everything rendered before'; failing actions are single-line. 3 class-specific known findings (position-less errors from jet's own built-in functions and numeric conversion helpers) are listed in known_findings.json and reported as KNOWN-FINDING.",
    tech="deterministic simulation: seeded program generation, failing action planted at every reached site x failure class, function faults at every dynamic call, twin-run prefix oracle, tape shrinking + replay",
    ref="DESIGN.md §6 C12"),
  "C05": dict(engine="execsim", cat="exploration",
-   text="Seeded exploration of nests of if/else-if/else and range over every rangeable kind (typed/interface slices, pointer-to-slice, arrays, ints(a,b), single/multi-entry maps, channels, index-providing and index-less custom Rangers; empty and non-empty; 0/1/2-variable forms with := and =; nested and re-ranged), whose rendering is known by construction from the documented rules. The simulator owns the ranger pools (adversarial reuse: a nested or later range receives the ranger released last; every execution is repeated under the fresh pool and both must match the expectation), feeds channels from producer goroutines on virtual time (gaps of seconds to 12 hours, close before first receive / long after last send; a range must end once its producer closed the channel), and injects function faults inside range bodies under try, after which later ranges over the same and other subjects must still behave.",
+   text="Seeded exploration of nests of if/else-if/else and range over every rangeable kind (typed/interface slices, pointer-to-slice, arrays, ints(a,b), single/multi-entry maps, channels, index-providing and index-less custom Rangers; empty and non-empty; 0/1/2-variable forms with := and =; nested and re-ranged), whose rendering is known by construction from the documented rules. The simulator owns the ranger pools (adversarial reuse: a nested or later range receives the ranger released last; every execution is repeated under the fresh pool and both must match the expectation), feeds channels from producer goroutines on virtual time (gaps of seconds to 12 hours, close before first receive / long after last send; a range must end once its producer closed the channel), and injects function faults inside range bodies under try, after which later ranges over the same and other subjects must still behave. As built additionally: '_' spellings, interface-wrapped and pointer conditions, maps up to 13 entries, channels of interface values with nil elements, zero-valued arrays, chan- and slice-typed custom Rangers; one run in ten is a re-entrant program (the same range statement active up to four times) judged by a closed-form model.",
    note="Trusted: the ~100-line reference evaluator for if/range (conditions come from a fixed truthiness table limited to the kinds the statement lists); multi-entry map iterations are compared as multisets. Sampling only: no claim over all programs.",
    tech="deterministic simulation: seeded program generation, simulated ranger pool, virtual-time channel producers (testing/synctest), fault injection under try, reference-model oracle, tape shrinking + replay",
    ref="DESIGN.md §6 C05"),
  "C15": dict(engine="loadersim", cat="exploration",
-   text="Seam invariant monitored on every Loader.Exists/Open and Cache.Get/Put call over seeded histories that take every lookup path (GetTemplate, Parse, extends, import, include with literal and data-computed names, exec, includeIfExists; cache hit and miss; development mode; 4 extension lists) with tape-spelled names (relative/absolute, ./ ../ // segments anywhere, more .. than the depth, trailing slash, spellings aimed at a canary file outside the root) from referrers at depth 0-3: each path must be canonical and in the allowed set {expected(referrer, name, kind)+ext}, Template.Name must be canonical, an existing canonical target must be found and rendered, and on a real directory-rooted OSFileSystemLoader the canary outside the root must never be rendered.",
-   note="Honest note: the decisive dimension is the spelling of names (input generation); the simulator contributes the recording seams, the histories and the real directory-rooted loader. Backslashes are not generated.",
+   text="Seam invariant monitored on every Loader.Exists/Open and Cache.Get/Put call over seeded histories that take every lookup path (GetTemplate, Parse, extends, import, include with literal and data-computed names, exec, includeIfExists; cache hit and miss; development mode; 4 extension lists) with tape-spelled names (relative/absolute, ./ ../ // segments anywhere, more .. than the depth, trailing slash, spellings aimed at a canary file outside the root) from referrers at depth 0-3: each path must be canonical and in the allowed set {expected(referrer, name, kind)+ext}, Template.Name must be canonical, an existing canonical target must be found and rendered, and on a real directory-rooted OSFileSystemLoader the canary outside the root must never be rendered. As built additionally: 110/140-character directory names, dot-prefixed directories, two references from one referrer, loader faults (transient miss, open/read error, panics in Exists/Open/Read), a Set behind a multi loader, and one run in twelve as a concurrent history under the seeded scheduler.",
+   note="Honest note: the decisive dimension is the spelling of names (input generation); the simulator contributes the recording seams, the histories and the real directory-rooted loader. Backslashes are generated as the ordinary characters they are on this platform.",
    tech="deterministic simulation: seeded reference histories, recording Loader/Cache seams with an invariant checked on every call, real scratch-directory loader with canary, tape shrinking + replay",
    ref="DESIGN.md §6 C15"),
  "C16": dict(engine="loadersim", cat="exploration",
-   text="Seeded histories (4-30 operations) of GetTemplate, GetTemplate+Execute with run-time includes, Parse with extends/import, loader Set/Delete with unique version markers, new Set over the same loader (restart analogue) and loader fault sequences (transient miss, Exists-true-then-Open-error, read error after k bytes, close error, unparsable content; faults stop at a tape-chosen point) on 1-2 Sets, under every combination of development mode, default vs recording cache and 5 extension lists. Each operation is judged against a clause-level reference model: identical pointer and zero loader calls on repeat lookups; never an answer without the loader unless something legitimately cacheable was loaded under that name (failures and Parse results are never remembered); progress within one call once faults stopped; development mode always reloads, renders current versions and never Puts; candidate extensions probed strictly in order and exactly the found path opened.",
+   text="Seeded histories (4-30 operations) of GetTemplate, GetTemplate+Execute with run-time includes, Parse with extends/import, loader Set/Delete with unique version markers, new Set over the same loader (restart analogue) and loader fault sequences (transient miss, Exists-true-then-Open-error, read error after k bytes, close error, unparsable content; faults stop at a tape-chosen point) on 1-2 Sets, under every combination of development mode, default vs recording cache and 5 extension lists. Each operation is judged against a clause-level reference model: identical pointer and zero loader calls on repeat lookups; never an answer without the loader unless something legitimately cacheable was loaded under that name (failures and Parse results are never remembered); progress within one call once faults stopped; development mode always reloads, renders current versions and never Puts; candidate extensions probed strictly in order and exactly the found path opened. As built additionally: files up to 70 KB, chains of up to four templates, run-time includeIfExists/exec, loader panics, reads delivering data together with an error or with EOF, files stored again between Open and Read, a user cache that forgets entries, one cache shared by a development-mode and an ordinary Set; one run in eight is a concurrent history (seeded scheduler, seam calls attributed per client and operation).",
    note="Trusted: the clause model is silent where the statement is silent (shared entries between spellings, Close discipline); version markers make every rendered byte attributable.",
    tech="deterministic simulation: seeded operation/fault histories over Loader and Cache seams, executable clause model as oracle, tape shrinking + replay",
    ref="DESIGN.md §6 C16"),
  "C19": dict(engine="loadersim", cat="exploration",
-   text="Seeded edit/query histories against a reference tree (path -> bytes | directory): InMemLoader under arbitrary spellings of Set/Delete/Exists/Open; OSFileSystemLoader over a real per-run scratch directory mutated with WriteFile/MkdirAll/RemoveAll; httpfs over a simulated http.FileSystem with injected Open/Stat/Read errors; embedfs over a static embedded tree with an exhaustive sweep of its path alphabet to depth 4; multi stacks of 1-3 loaders with overlapping contents (directory in an earlier loader, file in a later one) and AddLoaders mid-history. Exists(p) must hold iff the reference has a regular file at p, Exists implies Open reads exactly the reference bytes (multi: of the first loader in construction order that has it); after an injected fault only that call may fail, wrong bytes are never accepted.",
+   text="Seeded edit/query histories against a reference tree (path -> bytes | directory): InMemLoader under arbitrary spellings of Set/Delete/Exists/Open; OSFileSystemLoader over a real per-run scratch directory mutated with WriteFile/MkdirAll/RemoveAll; httpfs over a simulated http.FileSystem with injected Open/Stat/Read errors; embedfs over a static embedded tree with an exhaustive sweep of its path alphabet to depth 4; multi stacks of 1-3 loaders with overlapping contents (directory in an earlier loader, file in a later one) and AddLoaders mid-history. Exists(p) must hold iff the reference has a regular file at p, Exists implies Open reads exactly the reference bytes (multi: of the first loader in construction order that has it); after an injected fault only that call may fail, wrong bytes are never accepted. As built additionally: httpfs over a real http.Dir, nested Multis, ClearLoaders, held readers, OS root spellings, dangling symbolic links, short reads, a member loader that panics once, and one run in twelve with overlapping lookups on one multi loader under the seeded scheduler.",
    note="Trusted: the reference tree; file-system loaders are queried only with clean absolute paths; the OS loader runs on the real disk (no fault injection); embed.FS is static.",
    tech="deterministic simulation: seeded edit/query histories, simulated http.FileSystem with fault injection, reference-tree oracle, exhaustive embedfs sweep, tape shrinking + replay",
    ref="DESIGN.md §6 C19"),
  "C11": dict(engine="schedsim", cat="exploration",
-   text="2-4 simulated clients are real goroutines of which exactly one runs at a time; the next one is chosen from the seed at every yield point (jet's verifYield hook before each lock / shared-container access, every entry into the Loader, Cache and Writer seams), under a uniform-with-stay-bias or a PCT strategy. Each client issues 2-12 operations on one Set: GetTemplate/Parse/Execute of generated templates (first-time loads of shared extends/import/include targets, field-cache population reset per run, slow-path promoted fields), AddGlobal/LookupGlobal/{{g}} with unique values, Set/Delete/Exists/Open on the in-memory loader, edits of volatile templates, dump(); simulated pools hand Runtimes and rangers across clients. Oracles: (1) the same seeds run in a -race worker whose baton is invisible to the race detector, so an access pair not ordered by jet's own synchronisation is reported deterministically by schedule; (2) every Execute of a stable template equals its alone-run; (3) globals are a linearizable register per key and the in-memory loader a linearizable map (porcupine, event sequence numbers); (4) volatile templates render only versions somebody had written; (5) all clients finish (watchdog, step bound).",
-   note="Trusted: the Go race detector for oracle (1) - sound for the executions it sees; whether it still holds the earlier access is not schedule-determined, so race findings are re-tried up to 6 times before being reported and a finding that never reproduces is exit 2. Not demanded: pointer-identity of concurrent GetTemplate results, linearizability of loads against loader edits.",
+   text="2-4 simulated clients are real goroutines of which exactly one runs at a time; the next one is chosen from the seed at every yield point (jet's verifYield hook before each lock / shared-container access, every entry into the Loader, Cache and Writer seams), under a uniform-with-stay-bias or a PCT strategy. Each client issues 2-12 operations on one Set: GetTemplate/Parse/Execute of generated templates (first-time loads of shared extends/import/include targets, field-cache population reset per run, slow-path promoted fields), AddGlobal/LookupGlobal/{{g}} with unique values, Set/Delete/Exists/Open on the in-memory loader, edits of volatile templates, dump(); simulated pools hand Runtimes and rangers across clients. Oracles: (1) the same seeds run in a -race worker whose baton is invisible to the race detector, so an access pair not ordered by jet's own synchronisation is reported deterministically by schedule; (2) every Execute of a stable template equals its alone-run; (3) globals are a linearizable register per key and the in-memory loader a linearizable map (porcupine, event sequence numbers); (4) volatile templates render only versions somebody had written; (5) all clients finish (watchdog, step bound). As built additionally: failing executions (function errors with per-operation tags, non-error panic values, writer faults), a template including itself 60 levels deep, executions of a template other clients store and delete.",
+   note="Trusted: the Go race detector for oracle (1) - sound for the executions it sees; whether it still holds the earlier access is not schedule-determined, so race findings are re-tried up to 15 times before being reported and a finding that never reproduces is exit 2. Not demanded: pointer-identity of concurrent GetTemplate results, linearizability of loads against loader edits.",
    tech="deterministic simulation: seeded scheduler over real goroutines (stealth baton, PCT), simulated object pools, race detector under a serialised schedule, porcupine linearizability check, alone-run differential oracle, cross-process tape shrinking + replay",
    ref="DESIGN.md §6 C11"),
  "C02": dict(engine="parsesim", cat="exploration",
-   text="Seeded mutation sequences (truncate at any byte offset, delete/duplicate/swap chunks, splice ~120 lexer-relevant fragments inside actions, byte replacement, and 9 ground-truth structural mistakes) over generated template worlds under 7 delimiter configurations, with loader fault plans for the files reached through extends/import. Every Set.Parse / Set.GetTemplate call runs in its own testing/synctest bubble inside an isolated worker process: a panic in the lexer's background goroutine kills the worker (observed and replayed across processes by the driver), a lexer goroutine still blocked after the call makes the bubble deadlock (goroutine-leak oracle, also when the failure was an injected loader error in a referenced template), a per-run watchdog catches hangs. Also judged: (template, nil) or (_, error); syntax errors name a file of the set and a line inside it; ground-truth mistakes (unterminated action/comment/string, missing or surplus end, extends/import after content, unclosed parenthesis, overlapping comment markers) are rejected.",
-   note="Honest note: which strings are tried is input generation; the simulator contributes the only sound way to observe three of the four observables (background panic, goroutine left running, hang) and the loader-fault dimension. Sources are capped at 4 KiB.",
+   text="Seeded mutation sequences (truncate at any byte offset, delete/duplicate/swap chunks, splice ~120 lexer-relevant fragments inside actions, byte replacement, and 9 ground-truth structural mistakes) over generated template worlds under 14 delimiter configurations, with loader fault plans for the files reached through extends/import. Every Set.Parse / Set.GetTemplate call runs in its own testing/synctest bubble inside an isolated worker process: a panic in the lexer's background goroutine kills the worker (observed and replayed across processes by the driver), a lexer goroutine still blocked after the call makes the bubble deadlock (goroutine-leak oracle, also when the failure was an injected loader error in a referenced template), a per-run watchdog catches hangs. Also judged: (template, nil) or (_, error); syntax errors name a file of the set and a line inside it; ground-truth mistakes (unterminated action/comment/string, missing or surplus end, extends/import after content, unclosed parenthesis, overlapping comment markers) are rejected. As built additionally: sources padded to 512/4096/65536-byte boundaries, extends/import cycles, loader panics, reads delivering data together with an error or with EOF.",
+   note="Honest note: which strings are tried is input generation; the simulator contributes the only sound way to observe three of the four observables (background panic, goroutine left running, hang) and the loader-fault dimension. Sources are capped at 256 KiB.",
    tech="deterministic simulation: seeded mutation + loader fault sequences, worker-process crash boundary, synctest bubble as goroutine-leak oracle, watchdog, cross-process tape shrinking + replay",
    ref="DESIGN.md §6 C02"),
 }
